@@ -9,7 +9,7 @@ TAGS=""; grep -q "go:build verif" demo_test.go 2>/dev/null && TAGS="-tags verif"
 [ -f demo_test.go ] || cp out/demo_test.go demo_test.go
 RUN=$(grep -o 'func Test[A-Za-z0-9_]*' demo_test.go | sed 's/func //' | paste -sd'|')
 go test $TAGS -vet=off -count=1 -timeout 10m -run "^($RUN)\$" . >/tmp/mut.with.log 2>&1; W=$?
-git stash -q -- $(git diff --name-only) ; go test $TAGS -vet=off -count=1 -timeout 10m -run "^($RUN)\$" . >/tmp/mut.without.log 2>&1; WO=$?; git stash pop -q
+git diff > /tmp/mut.change.$$.diff; git apply -R /tmp/mut.change.$$.diff; go test $TAGS -vet=off -count=1 -timeout 10m -run "^($RUN)\$" . >/tmp/mut.without.log 2>&1; WO=$?; git apply /tmp/mut.change.$$.diff; rm -f /tmp/mut.change.$$.diff
 echo "demo with change: exit $W (want 1); without: exit $WO (want 0)"
 mv demo_test.go /tmp/demo_test.go.keep
 go build ./ && go build -tags verif ./ || echo "BUILD FAILS"
